@@ -1017,6 +1017,21 @@ static int apply(int op) {
     keep_temp(src, 0);
     fail_begin();
     e = VF_CATCH(concat(CA, src));
+    {
+      /* two ways of not being "left exactly as it was", told apart by label:
+         - the accepted prefix of the source stays appended (concat is not atomic);
+         - len also counts a slot for the refused element that was never constructed */
+      var x = VF_CATCH(g_sz = len(CA));
+      if (e and x is NULL and g_sz != (size_t)n) {
+        int k = snap(CA, t, MAXN + 8);
+        int prefix_kept = (k == n + 1 && t[n] == 0 && vf_led_live == FB.live + 1);
+        for (int i = 0; prefix_kept && i < n; i++) if (t[i] != MA.v[i]) prefix_kept = 0;
+        if (!prefix_kept) corrupt = 1;
+        vf_violation(L(prefix_kept ? "partially-appended" : "unconstructed-element-counted"), NULL,
+          "%s raised %s; len %d -> %zu, %" PRId64 " more live elements", o->name, vf_exc_name(e), n, (size_t)g_sz, vf_led_live - FB.live);
+        return VF_BAD;
+      }
+    }
     return fail_end(e, ValueError, ValueError, ValueError, o->name); }
 
   /* ---- second container ---- */
